@@ -127,7 +127,36 @@ func isDistributive(expr *parser.Expr) bool {
 		if _, ok := distributiveAggregations[aggr.Op]; !ok {
 			return false
 		}
+		// A parameter which is computed from series (e.g. topk(scalar(count(x)), y))
+		// has a different value in every partition.
+		if aggr.Param != nil && selectsSeries(aggr.Param) {
+			return false
+		}
+	case *parser.Call:
+		// These functions do not map each input series to an output series,
+		// their result depends on all series of the input.
+		if _, ok := nonDistributiveFunctions[aggr.Func.Name]; ok {
+			return false
+		}
 	}
 
 	return true
+}
+
+var nonDistributiveFunctions = map[string]struct{}{
+	"scalar":             {},
+	"absent":             {},
+	"absent_over_time":   {},
+	"histogram_quantile": {},
+}
+
+func selectsSeries(expr parser.Expr) bool {
+	found := false
+	parser.Inspect(expr, func(node parser.Node, _ []parser.Node) error {
+		if _, ok := node.(*parser.VectorSelector); ok {
+			found = true
+		}
+		return nil
+	})
+	return found
 }
